@@ -120,7 +120,7 @@ def main(prop, tier):
             # native probe of the real Server: C15 looks at the whole-notification scenarios, C13 at the generated edit histories (K6)
             fprobe = pool.submit(session_probe.run_probe, REPO, 40 if tier == 'quick' else 400, seed()) if prop in ('C13', 'C15') else None
             # bounded native stand-in for LineMap::normalize at a much larger bound than CBMC reaches (C14 / C13)
-            fnorm = pool.submit(normalize_probe.run_probe, REPO, 6 if tier == 'quick' else 8) if prop in ('C13', 'C14') else None
+            fnorm = pool.submit(normalize_probe.run_probe, REPO, 6 if tier == 'quick' else 9) if prop in ('C13', 'C14') else None
             results = kani_run.run_many(d, names, FLAGS, 2400, jobs=jobs)
             nprobe = fnorm.result() if fnorm else None
             probe = fprobe.result() if fprobe else None
@@ -255,7 +255,7 @@ def main(prop, tier):
         'server.rs::on_did_change (tokio / async-lsp) is not buildable under Kani: the per-change loop is covered only by the induction argument of DESIGN.md 3.4 (K6)',
         'Slab, Arc, text-size, anyhow are the real crates, executed symbolically; arithmetic is CBMC machine arithmetic with overflow checks (debug-build semantics)',
         'alloc::fmt::format is stubbed in harnesses that construct anyhow errors (message text is irrelevant to the contracts)'] + (
-        ['native normalize probe (bounded, real crate glas built with cargo test --offline): every document of <= 6 (quick) / 8 (thorough) characters over {a, LF, CR, 2-, 3-, 4-byte char} through the real LineMap::normalize - stored text without CR, LineMap::wf and LineMap::bnd (the assumptions of the Verus unit lmap), the reference table, and at every character boundary the client\'s (line, column), round trip and strict monotonicity; execution of enumerated inputs, not a proof'] if nprobe else []) + (
+        ['native normalize probe (bounded, real crate glas built with cargo test --offline): every document of <= 6 (quick) / 9 (thorough) characters over {a, LF, CR, 2-, 3-, 4-byte char} through the real LineMap::normalize - stored text without CR, LineMap::wf and LineMap::bnd (the assumptions of the Verus unit lmap), the reference table, and at every character boundary the client\'s (line, column), round trip and strict monotonicity; execution of enumerated inputs, not a proof'] if nprobe else []) + (
         ['native session probe (bounded, real crate glas built with cargo test --offline): whole-notification scenarios (C15: several changes, an earlier one rejected, mid-surrogate, multi-byte) and generated edit histories compared with the LSP reference client (C13, clause K6: 40 histories in the quick tier, 400 in the thorough tier, seeded by VERIF_SEED) through the real Server::on_did_open / on_did_change; not a proof - server.rs is outside both verifiers'] if probe else [])
     write_evidence(prop, tier, 'model_checking', cov, assumptions, time.time() - t0, len(violations), {'known_findings_matched': known_lines})
     if probe and probe['status'] == 'undecided' and not violations:
